@@ -1,8 +1,28 @@
 (* C19 — The isla command line honours its exit-code and output contract.
-   Only statements + `exact`; proofs are in Solver/CliFacts.v.  Model: Solver/Cli.v
+   Only statements + `exact`; proofs are in Solver/CliFacts.v and (proof extension) Solver/CliMore.v,
+   Solver/CliCompose.v, Solver/CliGuard.v.  Model: Solver/Cli.v
    (`run O fx a`: outcome of one invocation `a`, the library behind the CLI given as `O`,
-   `fx` = which of the two proposed repairs of get_input_string are present; `pinned` = none). *)
-From ISLA Require Import Cli CliFacts.
+   `fx` = which of the two proposed repairs of get_input_string are present; `pinned` = none).
+
+   STATUS
+   full   : file classification; check exits 0 iff accepted / exits 1 otherwise; malformed grammar or
+            constraint -> 65; missing file/grammar/constraint/input -> 2; front never exits 0;
+            front depends only on -g, -c and the .bnf/.py/.isla FILES (C19_front_depends_only_on_spec);
+            parse_then_check (C19_parse_then_check) and solve_then_check (C19_solve_then_check) under the
+            explicit library hypotheses (evaluator = Sat, solver soundness, parser completeness on printed
+            trees, JSON round trip);
+            no traceback outside the recorded classes for ALL FIVE commands (C19_no_traceback_partial:
+            tb_guard = true -> no uncaught exception), every class inhabited (C19_guard_classes_inhabited
+            + the three _refuted witnesses).
+   refuted: the unguarded `no traceback` statement (three witnesses); solve_then_check without the side
+            condition "printed word is not read as JSON" on the tree without the get_input_string repair
+            (C19_solve_then_check_refuted_json) and, with the repair, when the printed word is itself the
+            JSON encoding of a derivation tree (C19_solve_then_check_refuted_jsontree); without a constraint check exits 2
+            (C19_solve_without_constraint_check_2).
+   partial: `no traceback` holds only under tb_guard (the eight K_ classes are recorded findings, two of them
+            repaired by the `fixes` flags); solve_then_check needs a constraint source and, for plain output,
+            that the printed word is not itself accepted as a JSON derivation tree. *)
+From ISLA Require Import Cli CliFacts CliMore CliCompose CliGuard.
 
 (* ---- classification of FILES by suffix (ensure_*_present, get_input_string) ---- *)
 Theorem C19_ends_with : forall s suf, ends_with s suf = true <-> exists pre, s = pre ++ suf.
@@ -143,9 +163,8 @@ Print Assumptions C19_no_traceback_refuted_unknown.
 
 (* what holds — check: files in order, an input text, JSON stage harmless (or repaired), evaluator
    decides  =>  exit 0 or 1, one verdict line, empty stderr.
-   MISSING for the full statement: the guard of the whole pipeline as one boolean (`tb_guard` in Cli.v is
-   defined and used by the correspondence check, the theorem `tb_guard a = true -> no traceback` for all
-   five commands is stated here but not proved). *)
+   The guard of the whole pipeline as one boolean (`tb_guard` in Cli.v, also used by the correspondence
+   check) and the all-commands theorem are below: C19_no_traceback_partial. *)
 Theorem C19_check_no_traceback_partial :
   forall (G F T : Type) (O : oracles G F T) (fx : fixes) a d g f s,
   a_cmd a = Check -> front O a = Cont (d, g, f) -> input_text fx a d = Cont s ->
@@ -170,12 +189,8 @@ Proof. intros G F T O a o H. exact (stop_ok_not_0 o (front_stop_ok G F T O a o H
 Print Assumptions C19_front_never_exits_0.
 
 (* ---- solve prints exactly trees returned by the solver, in order ----
-   (first half of "every input printed by solve is accepted by check"; the composition
-      solve_then_check : In (Line l) (o_stdout (run O fx a)) -> l <> [] -> l not JSON ->
-                         constraint present -> H_solve_sound (C01+C10) ->
-                         run O fx (check_of a l) = Outcome (Exit 0) [MsgSat] SeNone
-    is stated in design_notes/C19.md and checked on the implementation by the harness, NOT proved here:
-    the lemma that `front` gives the same (d, g, f) for the check invocation is open.) *)
+   (first half of "every input printed by solve is accepted by check"; the composition is
+    C19_solve_then_check below) *)
 Theorem C19_solve_prints_solver_trees :
   forall (G F T : Type) (O : oracles G F T) a evs i acc,
   a_outdir a = DirNone ->
@@ -183,3 +198,174 @@ Theorem C19_solve_prints_solver_trees :
              forall t, In t ts -> In (SolTree t) evs.
 Proof. exact solve_loop_lines. Qed.
 Print Assumptions C19_solve_prints_solver_trees.
+
+(* ================================================================== *)
+(* Proof extension                                                      *)
+(* ================================================================== *)
+
+(* ---- front depends only on the grammar/constraint sources ----
+   same_spec a a': same -g, same -c list, same .bnf/.py/.isla FILES in the same order (input files, command,
+   -i, -n, -o ... may differ).  cmd_checks: the two command-specific usage checks (constraint required
+   unless solve; solve -d must be a directory). *)
+Theorem C19_front_depends_only_on_spec :
+  forall (G F T : Type) (O : oracles G F T) a a' d g f,
+  same_spec a a' -> readable a' -> cmd_checks a' (dict_of a') = false ->
+  front O a = Cont (d, g, f) ->
+  front O a' = Cont (dict_of a', g, f) /\ spec_dict (dict_of a') = spec_dict d.
+Proof. exact front_depends_only_on_spec. Qed.
+Print Assumptions C19_front_depends_only_on_spec.
+
+(* the derived invocation `isla check [-g ..] [-c ..]... <spec FILES of a> <n>` where file n holds `l` + newline:
+   same grammar, same constraint, and the input text read is exactly l (this was the open lemma) *)
+Theorem C19_check_of_front :
+  forall (G F T : Type) (O : oracles G F T) (fx : fixes) a n l d g f,
+  front O a = Cont (d, g, f) -> constraint_present a d = true -> is_input_name n = true ->
+  front O (check_of a n l) = Cont (dict_of (check_of a n l), g, f) /\
+  input_text fx (check_of a n l) (dict_of (check_of a n l)) = Cont l.
+Proof. exact check_of_front. Qed.
+Print Assumptions C19_check_of_front.
+
+(* ---- parse_then_check: the JSON tree emitted by `isla parse` is accepted by `isla check` ----
+   Library hypotheses: evaluator answers True iff Sat (C03); Sat does not distinguish a tree from the same
+   tree read back (Eqv, e.g. equality up to node ids); JSON round trip for trees of the grammar (C17 +
+   tree_is_valid); what get_input_string returns is a tree of the grammar (assertion / parser soundness C10).
+   Determinism of the parser/evaluator is built into the model: the oracles are functions. *)
+Theorem C19_parse_then_check :
+  forall (G F T : Type) (O : oracles G F T) (fx : fixes)
+         (InLang : gram G -> T -> Prop) (Sat : gram G -> F -> T -> Prop) (Eqv : gram G -> T -> T -> Prop),
+  (forall g f t, check_api O g f t = ChkTrue <-> Sat g f t) ->
+  (forall g f t t', Eqv g t t' -> Sat g f t -> Sat g f t') ->
+  (forall g p t, InLang g t -> exists t', json_in O g (to_json O p t) = JTree t' /\ Eqv g t t') ->
+  (forall g s t, json_in O g s = JTree t -> InLang g t) ->
+  (forall g f s t, parse_api O g f s = Some t -> InLang g t) ->
+  forall a n l,
+    a_cmd a = Parse -> In (Line l) (o_stdout (run O fx a)) -> is_input_name n = true ->
+    run O fx (check_of a n l) = Outcome (Exit 0) [MsgSat] SeNone.
+Proof. exact parse_then_check. Qed.
+Print Assumptions C19_parse_then_check.
+
+(* ---- solve_then_check: every input printed by `isla solve` makes `isla check` exit 0 ----
+   Additional library hypotheses: solver soundness (every tree returned by solve() is a tree of the grammar
+   and satisfies the constraint: C01/C02); parsing the printed tree gives the same tree again (C10).
+   Side conditions (both necessary, see the two theorems after this one): a constraint source exists;
+   for plain output the printed word is not itself read as JSON (`plain_text`: json stage answers "not JSON",
+   or - with the repair of get_input_string - "JSON but not a tree").  With -T the JSON round trip is used. *)
+Theorem C19_solve_then_check :
+  forall (G F T : Type) (O : oracles G F T) (fx : fixes)
+         (InLang : gram G -> T -> Prop) (Sat : gram G -> F -> T -> Prop) (Eqv : gram G -> T -> T -> Prop),
+  (forall g f t, check_api O g f t = ChkTrue <-> Sat g f t) ->
+  (forall g f t t', Eqv g t t' -> Sat g f t -> Sat g f t') ->
+  (forall g p t, InLang g t -> exists t', json_in O g (to_json O p t) = JTree t' /\ Eqv g t t') ->
+  (forall g f t, In (SolTree t) (solve_api O g f) -> InLang g t /\ Sat g f t) ->
+  (forall g f t, InLang g t -> exists t', parse_api O g f (to_str O t) = Some t' /\ Eqv g t t') ->
+  forall a n l,
+    a_cmd a = Solve -> In (Line l) (o_stdout (run O fx a)) ->
+    constraint_present a (dict_of a) = true -> is_input_name n = true ->
+    (a_tree a = false -> forall d g f, front O a = Cont (d, g, f) -> plain_text G F T O fx g l) ->
+    run O fx (check_of a n l) = Outcome (Exit 0) [MsgSat] SeNone.
+Proof. exact solve_then_check. Qed.
+Print Assumptions C19_solve_then_check.
+
+(* without a constraint source solve runs, the derived check invocation ends with exit 2 *)
+Theorem C19_solve_without_constraint_check_2 :
+  forall (G F T : Type) (O : oracles G F T) (fx : fixes) a n l d g f,
+  front O a = Cont (d, g, f) -> constraint_present a d = false -> is_input_name n = true ->
+  run O fx (check_of a n l) = usage_error.
+Proof. exact solve_without_constraint_check_2. Qed.
+Print Assumptions C19_solve_without_constraint_check_2.
+
+(* FULL STATEMENT without `plain_text` is false on the tree without the get_input_string repair: the toy
+   library O1 satisfies every hypothesis (next Example), solve prints `1`, check crashes on it (K_json_nontree) *)
+Theorem C19_solve_then_check_refuted_json :
+  In (Line w_1) (o_stdout (run O1 pinned solve2)) /\
+  run O1 pinned (check_of solve2 in_name w_1) = traceback TypeErr /\
+  K_json_nontree _ _ _ O1 pinned (check_of solve2 in_name w_1) = true.
+Proof. exact solve_then_check_refuted_json. Qed.
+Print Assumptions C19_solve_then_check_refuted_json.
+
+(* ... and even WITH the repair the residual side condition is necessary: all library hypotheses hold for the
+   toy library O2, solve prints the word "[" which is at the same time the JSON encoding of another tree;
+   check reads that tree and exits 1.  Reproduced on /repo (design_notes/C19.md, Proof extension). *)
+Theorem C19_solve_then_check_refuted_jsontree :
+  ((forall g f t, check_api O2 g f t = ChkTrue <-> Sat2 g f t) /\
+   (forall g f t t', Eqv1 g t t' -> Sat2 g f t -> Sat2 g f t') /\
+   (forall g p t, InLang2 g t -> exists t', json_in O2 g (to_json O2 p t) = JTree t' /\ Eqv1 g t t') /\
+   (forall g f t, In (SolTree t) (solve_api O2 g f) -> InLang2 g t /\ Sat2 g f t) /\
+   (forall g f t, InLang2 g t -> exists t', parse_api O2 g f (to_str O2 t) = Some t' /\ Eqv1 g t t')) /\
+  o_stdout (run O2 repaired (mk Solve [f_g; f_c])) = [Line w_br] /\
+  run O2 repaired (check_of (mk Solve [f_g; f_c]) in_name w_br) = Outcome (Exit 1) [MsgNotSat] SeNone.
+Proof. exact solve_then_check_refuted_jsontree. Qed.
+Print Assumptions C19_solve_then_check_refuted_jsontree.
+
+Example C19_compose_nonvacuous :
+  (forall g f t, check_api O1 g f t = ChkTrue <-> Sat0 g f t) /\
+  (forall g f t t', Eqv1 g t t' -> Sat0 g f t -> Sat0 g f t') /\
+  (forall g p t, InLang1 g t -> exists t', json_in O1 g (to_json O1 p t) = JTree t' /\ Eqv1 g t t') /\
+  (forall g s t, json_in O1 g s = JTree t -> InLang1 g t) /\
+  (forall g f s t, parse_api O1 g f s = Some t -> InLang1 g t) /\
+  (forall g f t, In (SolTree t) (solve_api O1 g f) -> InLang1 g t /\ Sat0 g f t) /\
+  (forall g f t, InLang1 g t -> exists t', parse_api O1 g f (to_str O1 t) = Some t' /\ Eqv1 g t t').
+Proof. exact toy_compose_laws. Qed.
+Print Assumptions C19_compose_nonvacuous.
+
+Example C19_compose_example :
+  o_stdout (run O1 repaired solve2) = [Line w_a; Line w_1] /\
+  run O1 repaired (check_of solve2 in_name w_a) = Outcome (Exit 0) [MsgSat] SeNone /\
+  run O1 repaired (check_of solve2 in_name w_1) = Outcome (Exit 0) [MsgSat] SeNone /\
+  o_stdout (run O1 repaired solve2T) = [Line (123%N :: w_a); Line (123%N :: w_1)] /\
+  run O1 repaired (check_of solve2T in_name (123%N :: w_a)) = Outcome (Exit 0) [MsgSat] SeNone /\
+  run O1 repaired parse1 = Outcome (Exit 0) [Line (123%N :: w_a)] SeNone /\
+  run O1 repaired (check_of parse1 in_name (123%N :: w_a)) = Outcome (Exit 0) [MsgSat] SeNone /\
+  is_input_name in_name = true /\ constraint_present solve2 (dict_of solve2) = true.
+Proof. exact compose_example. Qed.
+Print Assumptions C19_compose_example.
+
+(* ---- no uncaught traceback outside the recorded classes, ALL FIVE commands ----
+   tb_guard O fx a = none of K_undecodable K_pyext_raises K_empty_input K_json_nontree K_check_raises
+   K_api_raises K_solver_init K_outfile applies (Solver/Cli.v).  For every library O, every command line a. *)
+Theorem C19_no_traceback_partial :
+  forall (G F T : Type) (O : oracles G F T) (fx : fixes) a,
+  tb_guard G F T O fx a = true -> forall e, o_exit (run O fx a) <> Traceback e.
+Proof. exact tb_guard_no_traceback. Qed.
+Print Assumptions C19_no_traceback_partial.
+
+(* the form used by the correspondence check: every traceback of the model has a class number <> 0 *)
+Theorem C19_traceback_has_class :
+  forall (G F T : Type) (O : oracles G F T) (fx : fixes) a e,
+  o_exit (run O fx a) = Traceback e -> kclass G F T O fx a <> 0.
+Proof. exact traceback_has_class. Qed.
+Print Assumptions C19_traceback_has_class.
+
+Example C19_tb_guard_nonvacuous :
+  tb_guard _ _ _ O0 pinned (mk Solve [f_g; f_c]) = true /\
+  tb_guard _ _ _ O0 pinned (mk Check [f_g; f_c; f_in [97; 10]%N]) = true /\
+  tb_guard _ _ _ O0 pinned (mk Parse [f_g; f_c; f_in [97; 10]%N]) = true /\
+  tb_guard _ _ _ O0 pinned (mk Repair [f_g; f_c; f_in [97; 10]%N]) = true /\
+  tb_guard _ _ _ O0 pinned (mk Mutate [f_g; f_c; f_in [97; 10]%N]) = true /\
+  run O0 pinned (mk Parse [f_g; f_c; f_in [97; 10]%N]) = Outcome (Exit 0) [Line [97]%N] SeNone /\
+  run O0 pinned (mk Repair [f_g; f_c; f_in [97; 10]%N]) = Outcome (Exit 0) [Line [97]%N] SeNone /\
+  run O0 pinned (mk Mutate [f_g; f_c; f_in [98; 10]%N]) = Outcome (Exit 1) [] SeNoParse.
+Proof. exact tb_guard_nonvacuous. Qed.
+Print Assumptions C19_tb_guard_nonvacuous.
+
+(* no conjunct of the guard can be dropped: the five classes without a `_refuted` theorem above are
+   inhabited by tracebacks of the model too (undecodable file; -g plus raising .py file; repair/mutate
+   raising; solver construction raising; -o not writable) *)
+Theorem C19_guard_classes_inhabited :
+  (let a := mk Check [f_g; f_c; File [105; 110]%N Undecodable] in
+   run O0 repaired a = traceback OtherErr /\ K_undecodable a = true) /\
+  (let O := Ovar (fun _ => PyExn ValueErr) None RepFail (Raise ValueErr) in
+   let a := Args Check (Some [120]%N) [] None [f_py; f_c; in_a] 1%Z false false WvOk DirNone OutNone in
+   run O repaired a = traceback ValueErr /\ K_pyext_raises _ _ _ O a = true) /\
+  (let O := Ovar (pyext O0) None (RepExn ValueErr) (Raise TypeErr) in
+   run O repaired (mk Repair [f_g; f_c; in_a]) = traceback ValueErr /\
+   K_api_raises _ _ _ O repaired (mk Repair [f_g; f_c; in_a]) = true /\
+   run O repaired (mk Mutate [f_g; f_c; in_a]) = traceback TypeErr /\
+   K_api_raises _ _ _ O repaired (mk Mutate [f_g; f_c; in_a]) = true) /\
+  (let O := Ovar (pyext O0) (Some AssertErr) RepFail (Raise ValueErr) in
+   run O repaired (mk Solve [f_g; f_c]) = traceback AssertErr /\
+   K_solver_init _ _ _ O (mk Solve [f_g; f_c]) = true) /\
+  (let a := Args Parse None [] None [f_g; f_c; in_a] 1%Z false false WvOk DirNone OutBad in
+   run O0 repaired a = traceback OtherErr /\ K_outfile a = true).
+Proof. exact guard_classes_inhabited. Qed.
+Print Assumptions C19_guard_classes_inhabited.
